@@ -12,7 +12,7 @@ import qp  # noqa: E402
 from common import Ctx, load_known_findings  # noqa: E402
 from translate import c12gen  # noqa: E402
 
-LEAN_TARGETS = ["QuriVerif.Props.C12", "QuriVerif.Props.C12Lift"]
+LEAN_TARGETS = ["QuriVerif.Props.C12", "QuriVerif.Props.C12Lift", "QuriVerif.Driver.C12"]
 
 KNOWN = {"inv_U2": "inverse_gate.U2", "inv_U3": "inverse_gate.U3"}
 
@@ -74,7 +74,7 @@ def correspond(ctx: Ctx):
             m = "left"
         reqs.append(f"c12fold {p} {q} {n} {m}")
         metas.append(((p, q, n, method, seed), real))
-    resp = ctx.driver(reqs)
+    resp = ctx.driver(reqs, entry="DriverC12.lean")
     for (key, real), r in zip(metas, resp):
         p, q, n, method, seed = key
         ctx.case(("fold", p, q, n, method), nontrivial=(n > 0), sample={"scale": f"{p}/{q}", "n": n, "method": method, "model": r[:120]})
@@ -1066,7 +1066,7 @@ def run(ctx: Ctx, replay=None) -> int:
     ]
     ctx.assumptions = ["scale factors ≥ 1", "gates are unitary"]
     table = gen(ctx)
-    ok = ctx.prove(["QuriVerif.Props.C12", "QuriVerif.Props.C12Lift", "QuriVerif.Driver.All"],
+    ok = ctx.prove(["QuriVerif.Props.C12", "QuriVerif.Props.C12Lift", "QuriVerif.Driver.C12"],
                    ["QuriVerif.Props.C12", "QuriVerif.Props.C12Lift", "QuriVerif.Generated.C12Inverse"])
     if ok:
         names = [f"QV.Props.C12.{n}" for _, n, _ in ctx.count_obligations(["QuriVerif.Props.C12"])]
